@@ -25,7 +25,7 @@ TIME_UNIT = "logical time: delivered protocol messages (keys, nonces, partial si
 ALLOW_EMPTY_STEPS = True
 
 COMPONENTS = {
-    "real": ["buidl.taproot.MuSigTapScript (aggregation, nonces, coefficient, partial signing, get_signature)", "buidl.taproot.TapRootMultiSig tree generators, TapBranch/TapLeaf/ControlBlock",
+    "real": ["buidl.taproot.MuSigTapScript (aggregation, nonces, coefficient, partial signing, get_signature)", "buidl.taproot.TapRootMultiSig tree generators (several trees from one object), TapBranch/TapLeaf/ControlBlock",
              "buidl.tx.Tx.sig_hash / get_sig_taproot / initialize+finalize_p2tr_multisig / verify_input", "buidl.pecc point arithmetic, Schnorr sign/verify"],
     "stub": ["transport between participants and aggregator (order, duplication, loss, corruption, staleness)", "RNG behind buidl.taproot.randbelow", "participant crash/restart (volatile nonce secrets)"],
 }
